@@ -21,6 +21,7 @@ TECH = {
  "C13": "row/column `SFunction` of the unify() dispatch table; unify_sfunction cell shape",
  "C14": "finite-domain (ordering) evaluation of every comparison arm on MIR paths; registry-chain agreement",
  "C18": "panic-site inventory over parser-reachable MIR (explicit panics, unwraps, bounds/overflow asserts) with guard-based discharge",
+ "C19": "writer/reader agreement between the token-grouping passes and the token-tree-to-goal pass (token kinds produced vs. handled, union over MIR paths); registry agreement Display(Infix) vs. the infix scanners — one structural clause of the property, the round trip itself is not decided",
  "C22": "inventory of process-wide mutable state read by the solver; must-write rule for query constructors",
  "C23": "typestate pairing start_query_timer/cancel_timer and flag-read ordering on MIR paths",
  "C24": "closed-world audit of unsafe operations in MIR: static-access thread reachability, raw-pointer provenance, liveness of node references across cutting calls",
@@ -29,7 +30,6 @@ NA = {
  "C15": "well-formedness and element-exactness of built lists is the value-level loop arithmetic of make_linked_list (count, splice, terminator); no structural rule short of re-implementing it is a necessary condition",
  "C16": "append's result is a function of runtime list contents and bindings; its only shape clause (runs at most once) is the one-shot guard already decided under C04/C05",
  "C17": "count/filter/functor/join results quantify over runtime lists, binding chains and strings; no clause is visible in the shape of the code",
- "C19": "parse∘print = id is equality of two string transformers over all texts; neither side's structure bounds the other",
  "C20": "context-independence means two hand-written character classifiers agree on every string (program equivalence); a 'must share one helper' rule would fire on behaviour-preserving code",
  "C21": "file loading vs rule-by-rule parsing depends on line joining, comment stripping and period splitting over all texts; only a thin error-discipline clause is structural, too small to claim the property through",
 }
